@@ -28,7 +28,8 @@ def twos_complement(ctx, facts, rule):
              ('IntegerHelper.signed_to_c2', ih.methods.get('signed_to_c2'), ['v', 'w'], lambda v, w: v % (1 << w),
               lambda: ((v, w) for w in range(1, 7) for v in range(-(1 << w), 1 << w))),
              ('signExtend', facts.func(HELPER, 'signExtend', required=False), ['v', 'w', 'nw'], lambda v, w, nw: sgn(v, w) % (1 << nw),
-              lambda: ((v, w, nw) for w in range(1, 5) for nw in range(w, w + 4) for v in range(1 << w)))]
+              # "converts a signed or unsigned value": negative Python integers and values with bits above w are in the domain (the low w bits count)
+              lambda: ((v, w, nw) for w in range(1, 5) for nw in range(w, w + 4) for v in range(-(1 << w) - 1, (1 << (w + 1)) + 2)))]
     for name, fn, params, ref, dom in cases:
         if fn is None:
             ctx.error(rule, 'anchor %s not found' % name)
@@ -374,6 +375,75 @@ def ordering(ctx, facts):
             ctx.ok('C12.f', 'FPNum.compare:%s' % label, 'every feasible path returns %d' % expect)
 
 
+def operand_purity(ctx, facts):
+    """C12.i: the value-returning operations of FPNum / FixedPoint are observers of their operands.  A method that returns a value must not store into, or call a
+    mutating method on, anything that may alias `self` or a parameter; it works on copies (constructor call, copy(), result of another value-returning method).
+    Mutators = methods that store into self.* or call a mutator on self (fix-point).  Aliasing is flow-insensitive: a local is an alias as soon as one
+    assignment binds it to self / a parameter / another alias."""
+    n = 0
+    for cname in ('FPNum', 'FixedPoint'):
+        c = facts.cls(cname, HELPER, required=False)
+        if c is None:
+            ctx.error('C12.i', 'anchor class %s not found' % cname)
+            continue
+        mut = set()
+        changed = True
+        while changed:
+            changed = False
+            for mn, m in c.methods.items():
+                if mn in mut:
+                    continue
+                if not m.args.args:
+                    continue
+                sn = m.args.args[0].arg
+                hit = any(isinstance(x, (ast.Assign, ast.AugAssign)) and any(
+                    isinstance(t, ast.Attribute) and isinstance(t.value, ast.Name) and t.value.id == sn
+                    for t in (x.targets if isinstance(x, ast.Assign) else [x.target])) for x in ast.walk(m)) or any(
+                    isinstance(x, ast.Call) and isinstance(x.func, ast.Attribute) and x.func.attr in mut and isinstance(x.func.value, ast.Name) and x.func.value.id == sn
+                    for x in ast.walk(m))
+                if hit:
+                    mut.add(mn)
+                    changed = True
+        for mn, m in c.methods.items():
+            if mn in mut or mn.startswith('__') or not m.args.args or m.args.args[0].arg != 'self':
+                continue
+            if not any(isinstance(r, ast.Return) and r.value is not None and not (isinstance(r.value, ast.Constant) and r.value.value is None) for r in ast.walk(m)):
+                continue
+            n += 1
+            params = {a.arg for a in m.args.args}
+            alias = set(params)
+            grew = True
+            while grew:
+                grew = False
+                for x in ast.walk(m):
+                    if isinstance(x, ast.Assign):
+                        v = x.value
+                        vs = [v] if not isinstance(v, ast.IfExp) else [v.body, v.orelse]
+                        al = any(isinstance(y, ast.Name) and y.id in alias for y in vs)
+                        for t in x.targets:
+                            for tt in ([t] if not isinstance(t, ast.Tuple) else t.elts):
+                                if isinstance(tt, ast.Name) and al and tt.id not in alias:
+                                    alias.add(tt.id)
+                                    grew = True
+            bad = None
+            for x in ast.walk(m):
+                if isinstance(x, (ast.Assign, ast.AugAssign)):
+                    for t in (x.targets if isinstance(x, ast.Assign) else [x.target]):
+                        if isinstance(t, ast.Attribute) and isinstance(t.value, ast.Name) and t.value.id in alias:
+                            bad = 'stores into `%s`' % norm(t)
+                if isinstance(x, ast.Call) and isinstance(x.func, ast.Attribute) and x.func.attr in mut and isinstance(x.func.value, ast.Name) and x.func.value.id in alias:
+                    bad = 'calls the mutating method `%s` on `%s`, which may be the caller\'s operand' % (x.func.attr, x.func.value.id)
+                if bad:
+                    break
+            key = '%s.%s' % (cname, mn)
+            if bad:
+                ctx.violation('C12.i', key, '%s() returns a value but %s: the operand denotes / converts differently after the operation' % (key, bad), '%s:%s' % (HELPER, key),
+                              witness=dict(history='x = %s(...); y = x.%s(other); x.components() / x.convert(..) before and after differ' % (cname, mn)))
+            else:
+                ctx.ok('C12.i', key, 'works on copies: no store into / mutating call on self, a parameter or an alias of them')
+    ctx.floor('C12.i', 'value-returning operations analysed', n, 15)
+
+
 def float_paths(ctx, facts):
     """C12.h: shape conditions of the float conversions that the exactness clauses of the statement need:
     - FPNum.to_float keeps the sign of zero: the sign field is applied in a numeric type that has a signed zero (Decimal / float /
@@ -425,6 +495,8 @@ def run(ctx, sm, facts):
     from .c14 import helper_clause
     ctx.rule('C12.g', 'FixedPoint.add / sub / mult: extracted encoding function == exact arithmetic over a grid of formats and all operand pairs (shared with C14.d)')
     helper_clause(ctx, facts, 'C12.g')
+    ctx.rule('C12.i', 'operand purity: value-returning operations of FPNum / FixedPoint never mutate self, a parameter or an alias of them')
+    operand_purity(ctx, facts)
     ctx.rule('C12.h', 'float conversion shape: signed zero preserved by to_float; exponents never from a floating logarithm')
     float_paths(ctx, facts)
     ctx.rule('C12.f', 'FPNum.compare: ordering decided on aligned mantissas and signs only; decision table over sign / zero scenarios')
